@@ -77,7 +77,8 @@ def run(v):
         p = run_bin("record", ["bitbuffer", tr, "seed=%d" % (seed * 1000003 + ci), "histories=%d" % chunk, "ops=%d" % ops,
                                "maxbytes=%d" % maxbytes])
         if p.returncode != 0:
-            raise ToolError("record bitbuffer failed: " + p.stderr[-2000:])
+            vlib.recorder_failed(v, p, tr, "record bitbuffer (seed %d)" % (seed * 1000003 + ci))
+            break
         n = vlib.lint_trace(tr)
         events += n
         tt = run_tlc("C11", "Trace_BitBuffer", "SPECIFICATION Spec\nCONSTANTS\n  Dev = %s\nINVARIANT Exact\nPOSTCONDITION Accepted\n"
